@@ -38,13 +38,15 @@ shape `Model.GenHlsl` mirrors, and so has the label handling of `generate_scope_
 (textual facts re-extracted on every run).  `statementArmsAsModelled`: `match &statement.kind` has exactly one arm per
 `ir::StatementKind`, none guarded, each textually the modelled one; `ifElseArmAsModelled`: the one IfElse arm emits the
 condition unmodified and both blocks in order, whether or not a block is empty (seeded mutant C01-3 put a guarded arm
-in front that emits `if (<opposite of c>) B` for an empty first block: both facts become `false`). -/
+in front that emits `if (<opposite of c>) B` for an empty first block: both facts become `false`);
+`expressionArmsAsModelled`: the same for `match expr` of `generate_expression` (one unguarded arm per `ir::Expression`
+variant; leaf, operator, call and ternary arms textually as modelled). -/
 theorem exporter_shape_as_modelled :
     unaryFormAsModelled = true ∧ binaryFormAsModelled = true ∧ sequenceRightNested = true ∧
     sequenceAssertsTwo = true ∧ castDropsOnlyLiteralTargets = true ∧ ternaryInOrder = true ∧
     scopeBlockAsModelled = true ∧ labelsEmittedEmpty = true ∧
     statementArmsAsModelled = true ∧ ifElseArmAsModelled = true ∧ statementWrapperAsModelled = true ∧
-    forInitAsModelled = true := by decide
+    forInitAsModelled = true ∧ expressionArmsAsModelled = true ∧ helperBodiesAsModelled = true := by decide
 
 /-- **literals**: whatever `generate_literal` emits for a constant has the constant's value, and its static type is the
 constant's type — except that a typed `Int32` constant becomes an *unsuffixed* literal (static type "literal int"),
